@@ -27,7 +27,7 @@ def rel(p: int) -> str:
 
 # documents / records of increasing JSON length (LenOf(v) = v in the spec: only the ORDER of lengths matters)
 def value_pools(rng: random.Random) -> Dict[int, Any]:
-  short = [1, 'x', None, True, pg.Dict(), pg.List([0]), 2.5]
+  short = [1, 'x', None, True, pg.Dict(), pg.List([0]), 2.5, '', ' ', '\n', 'a\nb', '\t']
   mid = [pg.Dict(a=1, b='two'), pg.List([1, 'a', None, 2.5]), codec.A(x=1), 'a string of some length', pg.Dict({1: 'int key'}),
          (1, 'tuple')]
   long_ = [pg.Dict(a=pg.List([1, 2, pg.Dict(b=(1, 2))]), c='x' * 20, d=codec.B(x=pg.List([None]), y=3)),
@@ -74,6 +74,13 @@ class StoreReplayer:
     os.makedirs(self.std_root, exist_ok=True)
     reset_memory_file_system()
     self.handle = None
+    self.handle_api = 'jsonl'
+    # raw text records for the plain line-sequence API, by record id: the smallest id is the EMPTY string, then a
+    # whitespace-only one (a line format cannot carry a newline inside a raw record: not generated, see notes)
+    texts = ['', rng.choice([' ', '\t', '  \t ']), rng.choice(['plain text', '{"not": json', 'é\U0001F600', '0'])]
+    if len(ids) == 2:
+      texts = [texts[0], texts[2]]
+    self.text = {i: texts[k] for k, i in enumerate(ids)}
     self.hits: Dict[str, int] = {}
 
   def close(self):
@@ -115,14 +122,19 @@ class StoreReplayer:
       elif name == 'Rm':
         pg.io.rm(self.path(act[1], act[2]))
       elif name == 'OpenSeq':
-        self.handle = pg.open_jsonl(self.path(act[1], act[2]), act[3])
+        self.handle_api = act[4]
+        if act[4] == 'text':
+          self.handle = pg.io.open_sequence(self.path(act[1], act[2]), act[3])     # no serializer: raw text lines
+        else:
+          self.handle = pg.open_jsonl(self.path(act[1], act[2]), act[3])
       elif name == 'Add':
-        self.handle.add(self.value[act[1]])
+        self.handle.add(self.text[act[1]] if self.handle_api == 'text' else self.value[act[1]])
       elif name == 'CloseSeq':
         self.handle.close()
         self.handle = None
       elif name == 'ReadSeq':
-        with pg.open_jsonl(self.path(act[1], act[2]), 'r') as f:
+        opener = pg.io.open_sequence if act[3] == 'text' else pg.open_jsonl
+        with opener(self.path(act[1], act[2]), 'r') as f:
           ret = list(iter(f))
       else:
         raise ValueError(name)
@@ -142,6 +154,11 @@ class StoreReplayer:
       if bool(ret) != bool(out['v']):
         raise StoreDivergence('exists', {'expected': bool(out['v']), 'observed': ret})
     elif name == 'ReadSeq':
+      if act[3] == 'text':
+        want = [self.text[r] for r in out['recs']]
+        if ret != want:
+          raise StoreDivergence('text_records', {'expected': want, 'observed': [repr(x)[:40] for x in ret][:8]})
+        return
       want = [self.value[r] for r in out['recs']]
       if len(ret) != len(want) or not all(self.same(g, w) for g, w in zip(ret, want)):
         raise StoreDivergence('records', {'expected': repr(want)[:200], 'observed': repr(ret)[:200]})
